@@ -6,6 +6,7 @@ import (
 	"fmt"
 	"sync"
 
+	"github.com/krotik/ecal/engine"
 	"github.com/krotik/ecal/interpreter"
 	"github.com/krotik/ecal/parser"
 	"github.com/krotik/ecal/scope"
@@ -98,6 +99,7 @@ type Options struct {
 	Debugger func(erp *interpreter.ECALRuntimeProvider, vs parser.Scope) util.ECALDebugger
 	Name     string
 	NoEval   bool // parse (and validate) only
+	Workers  int  // > 0: replace the provider's processor by one with this many workers (fail-on-first-error as in ECAL)
 }
 
 // Run parses, validates and evaluates src on the calling goroutine.
@@ -123,6 +125,10 @@ func Run(src string, o Options) *Result {
 		il = &util.MemoryImportLocator{Files: map[string]string{}}
 	}
 	erp := NewProvider(name, il, logger)
+	if o.Workers > 0 {
+		erp.Processor = engine.NewProcessor(o.Workers)
+		erp.Processor.SetFailOnFirstErrorInTriggerSequence(true)
+	}
 	defer func() {
 		if !erp.Processor.Stopped() {
 			erp.Processor.Finish()
